@@ -26,13 +26,18 @@ type Limits struct {
 
 type Loader struct {
 	mu     sync.RWMutex
-	cache  map[string]*ast.Journal
+	cache  map[string]parsedFile
 	limits Limits
+}
+
+type parsedFile struct {
+	journal     *ast.Journal
+	parseErrors []LoadError
 }
 
 func NewLoader() *Loader {
 	return &Loader{
-		cache:  make(map[string]*ast.Journal),
+		cache:  make(map[string]parsedFile),
 		limits: DefaultLimits(),
 	}
 }
@@ -110,17 +115,11 @@ func (l *Loader) LoadFromContent(path, content string) (*ResolvedJournal, []Load
 }
 
 func (l *Loader) loadWithContent(path, content string, visited map[string]bool) (*ResolvedJournal, []LoadError) {
+	return l.resolveIncludes(path, parseFile(path, content), visited)
+}
+
+func parseFile(path, content string) parsedFile {
 	var errors []LoadError
-	limits := l.getLimits()
-
-	if len(visited) >= limits.MaxIncludeDepth {
-		return nil, []LoadError{{
-			Kind:    ErrorCycleDetected,
-			Path:    path,
-			Message: fmt.Sprintf("include depth limit exceeded (%d)", limits.MaxIncludeDepth),
-		}}
-	}
-
 	journal, parseErrs := parser.Parse(content)
 	for _, e := range parseErrs {
 		pos := ast.Position{
@@ -135,6 +134,22 @@ func (l *Loader) loadWithContent(path, content string, visited map[string]bool) 
 			Range:   ast.Range{Start: pos, End: pos},
 		})
 	}
+	return parsedFile{journal: journal, parseErrors: errors}
+}
+
+func (l *Loader) resolveIncludes(path string, file parsedFile, visited map[string]bool) (*ResolvedJournal, []LoadError) {
+	limits := l.getLimits()
+
+	if len(visited) >= limits.MaxIncludeDepth {
+		return nil, []LoadError{{
+			Kind:    ErrorCycleDetected,
+			Path:    path,
+			Message: fmt.Sprintf("include depth limit exceeded (%d)", limits.MaxIncludeDepth),
+		}}
+	}
+
+	journal := file.journal
+	errors := append([]LoadError(nil), file.parseErrors...)
 
 	result := NewResolvedJournal(journal)
 	visited[path] = true
@@ -200,8 +215,16 @@ func (l *Loader) loadSingleInclude(
 	cached, ok := l.cache[includePath]
 	l.mu.RUnlock()
 	if ok {
-		result.Files[includePath] = cached
-		result.FileOrder = append(result.FileOrder, includePath)
+		// A cached file is only a cached parse: its own includes are still
+		// followed, so the result does not depend on what was loaded before.
+		subResult, subErrors := l.resolveIncludes(includePath, cached, visited)
+		errors = append(errors, subErrors...)
+		if subResult != nil && subResult.Primary != nil {
+			result.Files[includePath] = subResult.Primary
+			result.FileOrder = append(result.FileOrder, includePath)
+			maps.Copy(result.Files, subResult.Files)
+			result.FileOrder = append(result.FileOrder, subResult.FileOrder...)
+		}
 		return errors
 	}
 
@@ -237,12 +260,13 @@ func (l *Loader) loadSingleInclude(
 		return errors
 	}
 
-	subResult, subErrors := l.loadWithContent(includePath, string(incContent), visited)
+	parsed := parseFile(includePath, string(incContent))
+	subResult, subErrors := l.resolveIncludes(includePath, parsed, visited)
 	errors = append(errors, subErrors...)
 
 	if subResult != nil && subResult.Primary != nil {
 		l.mu.Lock()
-		l.cache[includePath] = subResult.Primary
+		l.cache[includePath] = parsed
 		l.mu.Unlock()
 		result.Files[includePath] = subResult.Primary
 		result.FileOrder = append(result.FileOrder, includePath)
@@ -287,7 +311,7 @@ func (l *Loader) expandGlob(basePath, pattern string) ([]string, error) {
 func (l *Loader) ClearCache() {
 	l.mu.Lock()
 	defer l.mu.Unlock()
-	l.cache = make(map[string]*ast.Journal)
+	l.cache = make(map[string]parsedFile)
 }
 
 func (l *Loader) InvalidateFile(path string) {
